@@ -170,7 +170,7 @@ def run(tier, seed, replay):
                 v = cfg["parameters"].get(o["name"])
                 if isinstance(v, str) and v.startswith("%todo(") and ("param", o["name"]) not in overridden:
                     dist["todo_errors"] += 1
-                    msg = "parameter todo" if v == "%todo()%" else v[v.index("%todo(\"") + 7:v.rindex("\")%")]
+                    msg = "parameter todo" if v == "%todo()%" else v[v.index("%todo(\"") + 7:v.rindex("\")%")].replace("\\x25", "%")
                     if not (line.startswith("E(") and msg in line):
                         out.violation("todo-param-no-error", "GetParam(%s) on a todo parameter returns %s instead of the documented error %r" % (o["name"], line[:200], msg), dict(common.slim(specs[k], obs[k]), history=allh[k]))
             if o["op"] == "get":
